@@ -426,6 +426,26 @@ ROUND12 = {
 for _k, _v in ROUND12.items():
     CLAIMED[_k]["text"] = CLAIMED[_k]["text"] + " " + _v
 
+# sentences added in the thirteenth round of seeding
+ROUND13 = {
+    "C01": "ComponentState.finish assigns a final state only to a component that has none yet (C02's obligation re-used): what the scheduler acted on does not change.",
+    "C02": "A refused restart leads to TransitionComponentToFinalState on every path, also when the restart code is first bound to a local.",
+    "C03": "The registration loop of apply_replicate walks the component's own references on every path.",
+    "C04": "The component's own layers are applied whichever platform is selected.",
+    "C05": "A printed instance reference is never an operand of an ordering comparison.",
+    "C06": "override_entrypoint_args is the last layer also inside the compiler; the parent-parameter check and the registered environments see dictionary values the way the substitution does.",
+    "C07": "instance() layers each environment of the platform over the default one by variable (C17's obligation re-used) and stores the answer of a platform-layering getter as given.",
+    "C09": "No parser or identifier constructor keeps a process-wide memo whose key drops or transforms an argument of the parse.",
+    "C11": "The components the constructor stores are an element-by-element image of the given list.",
+    "C13": "The success test compares the return code with a value (None is not success).",
+    "C15": "A single-pass substitution whose context grows inside a loop over a set is loop-carried.",
+    "C16": "The choice of the reference that owns a relative spelling reads the component's own stage.",
+    "C17": "The DEFAULTS self-reference is resolved by the reference grammar (expand_vars), never by text replacement.",
+    "C19": "The number of stage files is the highest stage + 1, not the number of stages that have components.",
+}
+for _k, _v in ROUND13.items():
+    CLAIMED[_k]["text"] = CLAIMED[_k]["text"] + " " + _v
+
 
 def main():
     checks = []
